@@ -78,7 +78,7 @@ def instances(tier, seed):
     def add(**kw):
         items.append(dict(id='%s#%d' % (PROP, len(items)), **kw))
     H = [h for h in fam.HORIZONS]
-    grids = [fam.G_UNI, fam.G_GEO_LOC, fam.G_UNI_LT, fam.G_UNI_LT0]
+    grids = [fam.G_UNI, fam.G_GEO_LOC, fam.G_UNI_LT, fam.G_UNI_LT0, fam.G_GEO_LOC_LT, fam.G_UNI_LTT]
     n = 0
     reps = 1 if tier == 'quick' else 6
     for rep in range(reps):
@@ -94,6 +94,17 @@ def instances(tier, seed):
                     add(spec=fam.with_horizon(base, h), guesses=gset, when=when,
                         cfg=Cfg(method, N=N, M=M, intg=intg or 'rk', grid=g, degree=degree, scheme=scheme))
             n += 1
+    # several algebraic variables, a vector-valued one followed by a scalar one (row ranges inside the stacked algebraic vector)
+    for N, M, degree in ((2, 2, 3), (3, 1, 2)):
+        sz = Spec(nx=1, nu=1, nz=3, zshape=[2, 1], ode=[Z(0) + Z(2) * U(0) + t],
+                  alg=[Z(0) - nl1(X(0)), Z(1) - X(0) * t, Z(2) * 2 - Z(0) - U(0)])
+        sz.objective = [at_tf(X(0) * X(0)) + integral(U(0) * U(0))]
+        ZG0, ZG1 = E('zg', 0), E('zg', 1)
+        for gset in ([(ZG0, Fr(7, 2)), (ZG1, Fr(-3, 4))], [(ZG1, Fr(5, 4))], [(ZG0, [[Fr(10 + k) for k in range(N)], [Fr(20 + k) for k in range(N)]]), (ZG1, t * 2 + 1)],
+                     [(ZG1, [[Fr(30 + k) for k in range(N)]]), (ZG0, Fr(1, 2))]):
+            for when in ('before', 'after'):
+                add(spec=fam.with_horizon(sz, H[(N + M) % len(H)]), guesses=gset, when=when,
+                    cfg=Cfg('DC', N=N, M=M, grid=grids[N % 4], degree=degree, scheme='radau'))
     # vector-valued state: scalar guess (repeated), n x N and n x (N+1) arrays
     for method, intg in (('MS', 'rk'), ('DC', None), ('SS', 'rk')):
         for N, M in ((2, 2), (3, 1)):
@@ -185,8 +196,16 @@ def run(item):
             for gi_, (r_, c_) in enumerate(state_groups(spec0)):
                 if gi_ == tgt.a[0]:
                     for j_ in range(r_ * c_):
-                        final[repr(X(off + j_))] = (X(off + j_), val if isinstance(val, (int, Fr)) else [val[j_]])
+                        final[repr(X(off + j_))] = (X(off + j_), val if isinstance(val, (int, Fr, E)) else [val[j_]])
                 off += r_ * c_
+            continue
+        if tgt.op == 'zg':
+            off = 0
+            for gi_, n__ in enumerate(spec0.zshape):
+                if gi_ == tgt.a[0]:
+                    for j_ in range(n__):
+                        final[repr(Z(off + j_))] = (Z(off + j_), val if isinstance(val, (int, Fr, E)) else [val[j_]])
+                off += n__
             continue
         final[repr(tgt)] = (tgt, val)          # last call for a symbol wins
 
@@ -239,10 +258,20 @@ def run(item):
             for k, col in enumerate(cols):
                 cmp('Vc[%s][%d]' % (v.name, k), col[0], expect(ent[1], tr0.tc[k], k, None) if ent else 0.0)
     if spec.nz and cfg.method == 'DC':
-        ent = final.get(repr(Z(0)))
-        for n_, col in enumerate(tr0.Zr):
-            k = n_ // (M * cfg.degree)
-            cmp('Zr[%d]' % n_, col[0], (expect(ent[1], tr0.tr[n_], k, None) if ent else 0.0))
+        for a_ in range(spec.nz):
+            ent = final.get(repr(Z(a_)))
+            for n_, col in enumerate(tr0.Zr):
+                k = n_ // (M * cfg.degree)
+                cmp('Zr[%d][%d]' % (n_, a_), col[a_], (expect(ent[1], tr0.tr[n_], k, None) if ent else 0.0))
+    # node times at the starting point are the declared partition of [t0, t0+T] at the guessed t0, T (localized time variables included)
+    if cfg.grid[0] != 'free':
+        from ..extract import make_grid
+        nk = [float(v) for v in np.array(ca.DM(make_grid(cfg.grid)(0, 1, N))).flatten()]
+        for k in range(N + 1):
+            want_t = float(tr0.t0) + float(tr0.T) * nk[k]
+            checks += 1
+            if not close(float(tr0.tc[k]), want_t, 1e-9):
+                V('start-node-times', 'tc[%d]' % k, 'node time at the starting point is %r, the guessed t0=%r, T=%r and the declared grid imply %r' % (float(tr0.tc[k]), float(tr0.t0), float(tr0.T), want_t))
     for hname, kind, leaf_ in (('T', spec.T, T), ('t0', spec.t0, t0)):
         if kind[0] == 'free':
             ent = final.get(repr(leaf_))
